@@ -2,8 +2,8 @@
 // C17: the kernels write through `&mut [&mut [Word]]` / sub-slices with computed offsets, checked here under CBMC's
 // pointer / bounds checks with buffers of exactly the sizes the callers allocate).
 //
-// Functions under test: words_to_chunks, chunks_to_words (symbolic data), TypedReprRef::to_chunks, Repr::from_chunks
-// (RefSmall: symbolic; RefLarge / from_chunks allocation glue: concrete values, see below).
+// Functions under test: words_to_chunks, chunks_to_words (3-word inputs), TypedReprRef::to_chunks on RefSmall,
+// Repr::from_chunks on the empty list.
 //
 // Oracle (from the property statement / the documentation of UBig::to_chunks, from_chunks): the chunks c_0..c_{k-1} of x
 // for a chunk size of b bits satisfy  k = ceil(bit_len(x) / b),  c_i < 2^b,  sum c_i * 2^(i*b) = x;  from_chunks returns
@@ -16,8 +16,9 @@
 // The Vec<Buffer> / Box<[&mut [Word]]> / in-place collect glue of to_chunks (RefLarge) and from_chunks is too slow for
 // CBMC even with two chunks and symbolic data (> 6 min, > 14 GB): the kernel harnesses therefore own the chunk buffers
 // (sized `ceil(chunk_bits / WORD_BITS) + 1` words each, exactly as to_chunks allocates them; result buffer
-// `max_len + (n - 1) * chunk_bits / 64 + 2` words, at most what from_chunks allocates), and the glue is run on concrete
-// numbers only (vk_int_chunks_glue_*).
+// `max_len + (n - 1) * chunk_bits / 64 + 2` words, at most what from_chunks allocates), the glue itself
+// (chunk count = ceil(bit_len / chunk_bits), one buffer of that size per chunk) is NOT covered for RefLarge -- even on
+// concrete numbers CBMC needs > 5 min and > 11 GB for it.
 use super::*;
 include!("/verif/kani/harness/shim.rs");
 
@@ -104,8 +105,8 @@ fn vk_is_zero(a: &[u64; VK_L]) -> bool {
     a[0] == 0 && a[1] == 0 && a[2] == 0 && a[3] == 0 && a[4] == 0
 }
 
-/// bit length of a concrete word by repeated halving (oracle)
-fn vk_bit_len_word(mut v: u64) -> usize {
+/// bit length of a literal word by repeated halving (oracle; evaluated at compile time)
+const fn vk_bit_len_word(mut v: u64) -> usize {
     let mut n = 0;
     while v != 0 {
         n += 1;
@@ -119,10 +120,10 @@ fn vk_bit_len_word(mut v: u64) -> usize {
 // NC = number of chunks (checked against ceil(bit_len / cb)), WPC = words per chunk buffer = ceil(cb / 64) + 1.
 
 macro_rules! vk_chunks_kernel {
-    ($name:ident, $cb:expr, $nc:expr, $wpc:expr, $top:expr) => {
+    ($name:ident, $cb:expr, $nc:expr, $wpc:expr, $top:expr, [$($b:ident),+]) => {
         #[cfg_attr(kani, kani::proof)]
         #[cfg_attr(not(kani), test)]
-        #[cfg_attr(kani, kani::unwind(70))]
+        #[cfg_attr(kani, kani::unwind(22))]
         fn $name() {
             const CB: usize = $cb;
             const NC: usize = $nc;
@@ -130,57 +131,57 @@ macro_rules! vk_chunks_kernel {
             let lo: [Word; 2] = any();
             let w: [Word; 3] = [lo[0], lo[1], $top];
             let mag = [w[0], w[1], w[2], 0, 0];
-            let bl = 128 + vk_bit_len_word($top);
-            assert!(NC == (bl - 1) / CB + 1 && WPC == (CB - 1) / 64 + 2);
-            // words -> chunks
-            let mut bufs = [[0 as Word; WPC]; NC];
+            const BL: usize = 128 + vk_bit_len_word($top);
+            const _: () = assert!(NC == (BL - 1) / CB + 1 && WPC == (CB - 1) / 64 + 2);
+            // words -> chunks (one local buffer per chunk; array::from_fn / Vec here cost CBMC minutes)
+            $(let mut $b = [0 as Word; WPC];)+
             {
-                let mut it = bufs.iter_mut();
-                let mut refs: [&mut [Word]; NC] = core::array::from_fn(|_| &mut it.next().unwrap()[..]);
+                let mut refs: [&mut [Word]; NC] = [$(&mut $b[..]),+];
                 words_to_chunks(&w, &mut refs, CB);
             }
+            let refs: [&[Word]; NC] = [$(&$b[..]),+];
             let mut acc = [0u64; VK_L];
             let mut i = 0;
             while i < NC {
-                let c = vk_slice_limbs(&bufs[i]);
+                let c = vk_slice_limbs(refs[i]);
                 assert!(vk_below_pow2(&c, CB));
                 vk_add_shifted(&mut acc, &c, i * CB);
                 i += 1;
             }
             assert!(vk_limbs_eq(&acc, &mag));
             // "no empty chunk": the most significant chunk is not zero
-            assert!(!vk_is_zero(&vk_slice_limbs(&bufs[NC - 1])));
+            assert!(!vk_is_zero(&vk_slice_limbs(refs[NC - 1])));
             // chunks -> words (result and scratch buffers as from_chunks sizes them: see file header)
             const RL: usize = WPC + (NC - 1) * CB / 64 + 2;
             let mut out = [0 as Word; RL];
             let mut scratch = [0 as Word; WPC + 1];
-            {
-                let refs: [&[Word]; NC] = core::array::from_fn(|k| &bufs[k][..]);
-                chunks_to_words(&mut out, &refs, CB, &mut scratch);
-            }
+            chunks_to_words(&mut out, &refs, CB, &mut scratch);
             assert!(vk_limbs_eq(&vk_slice_limbs(&out), &mag));
             cover();
         }
     };
 }
 // 128: 2 chunks, word-aligned shortcut whose last chunk is shorter than the chunk size (the repaired defect f5c9bbd)
-vk_chunks_kernel!(vk_int_chunks_kernel_cb128_a, 128, 2, 3, 1);
-vk_chunks_kernel!(vk_int_chunks_kernel_cb128_b, 128, 2, 3, 1 << 63);
+vk_chunks_kernel!(vk_int_chunks_kernel_cb128_a, 128, 2, 3, 1, [b0, b1]);
+vk_chunks_kernel!(vk_int_chunks_kernel_cb128_b, 128, 2, 3, 1 << 63, [b0, b1]);
 // 64: 3 chunks, word-aligned shortcut
-vk_chunks_kernel!(vk_int_chunks_kernel_cb64, 64, 3, 2, (1 << 63) | 5);
+vk_chunks_kernel!(vk_int_chunks_kernel_cb64, 64, 3, 2, (1 << 63) | 5, [b0, b1, b2]);
 // 65: 130 = 2 * 65 bits exactly (last chunk ends at the bit length), 131 and 192 bits: 3 chunks
-vk_chunks_kernel!(vk_int_chunks_kernel_cb65_a, 65, 2, 3, 2);
-vk_chunks_kernel!(vk_int_chunks_kernel_cb65_b, 65, 3, 3, 4);
-vk_chunks_kernel!(vk_int_chunks_kernel_cb65_c, 65, 3, 3, 1 << 63);
+vk_chunks_kernel!(vk_int_chunks_kernel_cb65_a, 65, 2, 3, 2, [b0, b1]);
+vk_chunks_kernel!(vk_int_chunks_kernel_cb65_b, 65, 3, 3, 4, [b0, b1, b2]);
+vk_chunks_kernel!(vk_int_chunks_kernel_cb65_c, 65, 3, 3, 1 << 63, [b0, b1, b2]);
 // 63: 189 = 3 * 63 bits, 190 and 192 bits: 4 chunks
-vk_chunks_kernel!(vk_int_chunks_kernel_cb63_a, 63, 3, 2, 1 << 60);
-vk_chunks_kernel!(vk_int_chunks_kernel_cb63_b, 63, 4, 2, 1 << 61);
-vk_chunks_kernel!(vk_int_chunks_kernel_cb63_c, 63, 4, 2, u64::MAX);
+vk_chunks_kernel!(vk_int_chunks_kernel_cb63_a, 63, 3, 2, 1 << 60, [b0, b1, b2]);
+vk_chunks_kernel!(vk_int_chunks_kernel_cb63_b, 63, 4, 2, 1 << 61, [b0, b1, b2, b3]);
+vk_chunks_kernel!(vk_int_chunks_kernel_cb63_c, 63, 4, 2, u64::MAX, [b0, b1, b2, b3]);
 // 200: a single chunk wider than the number
-vk_chunks_kernel!(vk_int_chunks_kernel_cb200, 200, 1, 5, u64::MAX);
-// 7: 19 and 28 chunks
-vk_chunks_kernel!(vk_int_chunks_kernel_cb7_a, 7, 19, 2, 1);
-vk_chunks_kernel!(vk_int_chunks_kernel_cb7_b, 7, 28, 2, 1 << 63);
+vk_chunks_kernel!(vk_int_chunks_kernel_cb200, 200, 1, 5, u64::MAX, [b0]);
+// 33: 5 and 6 chunks, two chunks per word boundary
+vk_chunks_kernel!(vk_int_chunks_kernel_cb33_a, 33, 5, 2, 1 << 4, [b0, b1, b2, b3, b4]);
+vk_chunks_kernel!(vk_int_chunks_kernel_cb33_b, 33, 6, 2, 1 << 63, [b0, b1, b2, b3, b4, b5]);
+// 7: 19 chunks
+vk_chunks_kernel!(vk_int_chunks_kernel_cb7, 7, 19, 2, 1,
+    [b0, b1, b2, b3, b4, b5, b6, b7, b8, b9, b10, b11, b12, b13, b14, b15, b16, b17, b18]);
 
 // ---------------------------------------------------------------------------------------------------------------
 // chunks_to_words on ARBITRARY chunks ("it's allowed for each chunk to have more bits than chunk_bits"): three chunks
@@ -293,42 +294,6 @@ vk_chunks_small!(vk_int_chunks_small_cb128, 128);
 vk_chunks_small!(vk_int_chunks_small_cb129, 129);
 
 // ---------------------------------------------------------------------------------------------------------------
-// the allocation glue of TypedReprRef::to_chunks (RefLarge) and Repr::from_chunks on CONCRETE numbers: chunk count,
-// buffer sizes (CBMC checks every access), values, and the round trip
-fn vk_glue_one<const NC: usize>(w: [Word; 3], cb: usize) {
-    let mag = [w[0], w[1], w[2], 0, 0];
-    let chunks = RefLarge(&w).to_chunks(cb);
-    assert!(chunks.len() == NC);
-    let mut acc = [0u64; VK_L];
-    let mut i = 0;
-    while i < NC {
-        let c = vk_repr_limbs(&chunks[i]);
-        assert!(vk_below_pow2(&c, cb));
-        vk_add_shifted(&mut acc, &c, i * cb);
-        i += 1;
-    }
-    assert!(vk_limbs_eq(&acc, &mag));
-    let refs: [&[Word]; NC] = core::array::from_fn(|k| chunks[k].as_slice());
-    let back = Repr::from_chunks(&refs, cb);
-    assert!(vk_limbs_eq(&vk_repr_limbs(&back), &mag));
-}
-
-#[cfg_attr(kani, kani::proof)]
-#[cfg_attr(not(kani), test)]
-#[cfg_attr(kani, kani::unwind(70))]
-fn vk_int_chunks_glue_cb128() {
-    vk_glue_one::<2>([0x0123456789abcdef, 0xfedcba9876543210, 4], 128); // (1 << 130) + ...: the input of defect f5c9bbd
-    cover();
-}
-
-#[cfg_attr(kani, kani::proof)]
-#[cfg_attr(not(kani), test)]
-#[cfg_attr(kani, kani::unwind(70))]
-fn vk_int_chunks_glue_cb65() {
-    vk_glue_one::<3>([u64::MAX, 0x8000000000000001, 0xdeadbeef], 65);
-    cover();
-}
-
 // no chunks at all: zero
 #[cfg_attr(kani, kani::proof)]
 #[cfg_attr(not(kani), test)]
@@ -339,3 +304,4 @@ fn vk_int_chunks_glue_none() {
     assert!(vk_is_zero(&vk_repr_limbs(&r)));
     cover();
 }
+
